@@ -217,6 +217,46 @@ def rw_small_workloads():
           [{"op": "set_len", "n": 100}, {"op": "position"}, {"op": "set_len", "n": 100}, {"op": "position"}] + FL + \
           [{"op": "close"}] + reread("m") + reread("bar")
     out.append({"ver": 3, "maxbuf": None, "mode": "rw_faults", "streams": streams, "ops": ops, "every_k": True})
+    # the allocation that needs a second FAT sector (the 129th sector of a version 3 file)
+    streams = [{"name": "bar", "runs": f.runs(rng, 62000)}]
+    ops = [{"op": "open"}, {"op": "open_stream", "name": "bar"}, {"op": "open_stream", "name": "bar"},
+           {"op": "seek", "whence": "end", "d": 0, "sym": ""}, {"op": "position"},
+           {"op": "write_all", "runs": f.runs(rng, 3000)}, {"op": "position"}] + FL + \
+          [{"op": "close"}, {"op": "create_stream", "name": "b"}, {"op": "create_stream", "name": "b"},
+           {"op": "write_all", "runs": f.runs(rng, 5000)}, {"op": "position"}] + FL + [{"op": "close"}] + reread("bar") + reread("b")
+    out.append({"ver": 3, "maxbuf": None, "mode": "rw_faults", "streams": streams, "ops": ops, "every_k": True})
+    # removal of an entry with two children whose predecessor is not its own child (sibling tree k4 -> (k2 -> k1, k3), k6):
+    # several links are rewritten; every other entry must still be there after a failed and retried removal
+    for ver in (3, 4):
+        streams = [{"name": nm, "runs": f.runs(rng, 100)} for nm in ("k4", "k2", "k6", "k1", "k3", "k5")]
+        ops = [{"op": "open"}, {"op": "remove_stream", "name": "k4"}, {"op": "remove_stream", "name": "k4"}, {"op": "exists", "name": "k4"}]
+        for nm in ("k1", "k2", "k3", "k5", "k6"):
+            ops += reread(nm)
+        ops += [{"op": "remove_stream", "name": "k2"}, {"op": "remove_stream", "name": "k2"}]
+        for nm in ("k1", "k3", "k5", "k6"):
+            ops += reread(nm)
+        out.append({"ver": ver, "maxbuf": None, "mode": "rw_faults", "streams": streams, "ops": ops, "every_k": True})
+    # a failed call whose leftovers meet ANOTHER call before it is retried:
+    #  - remove_stream fails while releasing the chain; a new stream is written into the released space; the removal is retried
+    #  - create_stream fails while adding a directory sector; an entry is removed; the creation is retried in the freed slot
+    streams = [{"name": "bar", "runs": f.runs(rng, 5000)}, {"name": "d", "runs": f.runs(rng, 9000)}, {"name": "m", "runs": f.runs(rng, 300)}]
+    ops = [{"op": "open"}, {"op": "remove_stream", "name": "d"},
+           {"op": "create_stream", "name": "b"}, {"op": "create_stream", "name": "b"}, {"op": "write_all", "runs": f.runs(rng, 6000)}, {"op": "position"}] + FL + \
+          [{"op": "close"}, {"op": "remove_stream", "name": "d"}, {"op": "remove_stream", "name": "m"},
+           {"op": "create_stream", "name": "c"}, {"op": "create_stream", "name": "c"}, {"op": "write_all", "runs": f.runs(rng, 200)}, {"op": "position"}] + FL + \
+          [{"op": "close"}, {"op": "remove_stream", "name": "m"}] + reread("b") + reread("c") + reread("bar")
+    out.append({"ver": 3, "maxbuf": None, "mode": "rw_faults", "streams": streams, "ops": ops, "every_k": True})
+    # create_stream over an existing stream (truncation to nothing), failed and retried: the truncation must be in the file
+    streams = [{"name": "a", "runs": f.runs(rng, 5000)}, {"name": "m", "runs": f.runs(rng, 300)}]
+    ops = [{"op": "open"}]
+    for nm in ("a", "m"):
+        ops += [{"op": "create_stream", "name": nm}, {"op": "create_stream", "name": nm}] + FL + [{"op": "close"}] + reread(nm)
+    out.append({"ver": 3, "maxbuf": None, "mode": "rw_faults", "streams": streams, "ops": ops, "every_k": True})
+    streams = [{"name": nm, "runs": f.runs(rng, 100)} for nm in ("k1", "k2", "k3")]
+    ops = [{"op": "open"}, {"op": "create_stream", "name": "k5"}, {"op": "remove_stream", "name": "k2"}, {"op": "remove_stream", "name": "k2"},
+           {"op": "create_stream", "name": "k5"}, {"op": "write_all", "runs": f.runs(rng, 150)}, {"op": "position"}] + FL + \
+          [{"op": "close"}] + reread("k5") + reread("k1") + reread("k3")
+    out.append({"ver": 3, "maxbuf": None, "mode": "rw_faults", "streams": streams, "ops": ops, "every_k": True})
     return out
 
 
